@@ -34,17 +34,66 @@ def ctx_key(ev):
     return tuple((c[0], c[1], tuple(sorted(c[2])) if isinstance(c[2], frozenset) else c[2]) for c in ev.ctx)
 
 
+def _ctor_args(fns, f):
+    """(event, helper-name, param-name) for every op constructor passed *as a value* (bare
+    `SymbolicByteCode::X`, X taking a payload) to a method of the same impl."""
+    out = []
+    evs = synq.events(f)
+    for ev in evs:
+        if ev.kind != "op" or ev.node.get("e") != "path" or ev.name not in SLOT_AFTER:
+            continue
+        for c in evs:
+            if c.kind != "call" or c.name not in fns:
+                continue
+            args = c.node.get("args") or []
+            for i, a in enumerate(args):
+                if a is ev.node:
+                    params = [x for x in fns[c.name].get("args", []) if x.get("name") != "self"]
+                    if i < len(params):
+                        out.append((ev, c.name, params[i]["name"]))
+    return out
+
+
 def run_slots(rec, S):
     R = rec.rule("F2.s", "every construction of Invoke/SuperInvoke is immediately followed by InvokeSlot and every Get/SetPropByName by PropertySlot (the handlers read the 4-byte cache slot unconditionally), in the compiler and in peephole rewrites")
     n = 0
     for file, fns in ((COMPILER, compiler_fns(S)), (PEEPHOLE, peephole_fns(S))):
+        # constructors handed to an emitting helper: the helper's call of that parameter is the emission
+        passed = {}      # id(op event node) -> (helper, param)
+        param_ctors = {}  # (helper, param) -> set of op names passed
+        for name, f in fns.items():
+            for ev, h, pn in _ctor_args(fns, f):
+                passed[id(ev.node)] = (h, pn)
+                param_ctors.setdefault((h, pn), set()).add(ev.name)
         for name, f in fns.items():
             evs = synq.events(f)
+            pseudo = [e for e in evs if e.kind == "call" and (name, e.name) in param_ctors and e.node.get("e") == "call"]
+            for e in pseudo:
+                e.kind = "op"
+                e.pseudo = True
             ops = [e for e in evs if e.kind == "op"]
             for ev in ops:
+                if getattr(ev, "pseudo", False):
+                    # by_name(..) inside the helper: the slot must follow for every constructor passed in
+                    want = {SLOT_AFTER[c] for c in param_ctors[(name, ev.name)]}
+                    nxt = synq.same_block_next(evs, ev, kinds=("op",))
+                    ok = nxt is not None and want == {nxt.name}
+                    n += 1
+                    rec.inst(R, "%s:<%s>@%d" % (name, ev.name, n), ok=ok, loc=L(file, ev.line))
+                    if not ok:
+                        rec.finding(R, "F2.s/%s/<%s>" % (name, ev.name), "%s emits the instruction built by its parameter %s (%s at its call sites) without the %s pseudo-op right after it" % (name, ev.name, "/".join(sorted(param_ctors[(name, ev.name)])), "/".join(sorted(want))), loc=L(file, ev.line), fn=name)
+                    continue
                 if ev.name not in SLOT_AFTER:
                     continue
                 n += 1
+                if id(ev.node) in passed:
+                    h, pn = passed[id(ev.node)]
+                    hevs = synq.events(fns[h])
+                    ok = any(e.kind == "call" and e.name == pn and e.node.get("e") == "call" for e in hevs)
+                    rec.inst(R, "%s:%s->%s@%d" % (name, ev.name, h, n), ok=ok, loc=L(file, ev.line), note="constructor passed to %s; slot checked there" % h)
+                    if not ok:
+                        rec.finding(R, "F2.s/%s/%s" % (name, ev.name), "%s passes %s to %s, which never builds it (emission not found)" % (name, ev.name, h), loc=L(file, ev.line), fn=name)
+                    continue
                 nxt = synq.same_block_next(evs, ev, kinds=("op",))
                 ok = nxt is not None and nxt.name == SLOT_AFTER[ev.name]
                 rec.inst(R, "%s:%s@%d" % (name, ev.name, n), ok=ok, loc=L(file, ev.line))
@@ -52,10 +101,13 @@ def run_slots(rec, S):
                     rec.finding(R, "F2.s/%s/%s" % (name, ev.name), "%s emits %s without the %s pseudo-op right after it: the handler would read the next instruction's bytes as a cache slot" % (name, ev.name, SLOT_AFTER[ev.name]), loc=L(file, ev.line), fn=name)
             # and no orphan slot ops
             for ev in ops:
-                if ev.name in ("InvokeSlot", "PropertySlot"):
+                if ev.name in ("InvokeSlot", "PropertySlot") and not getattr(ev, "pseudo", False):
                     idx = ops.index(ev)
                     prev = ops[idx - 1] if idx > 0 else None
-                    ok = prev is not None and SLOT_AFTER.get(prev.name) == ev.name
+                    if prev is not None and getattr(prev, "pseudo", False):
+                        ok = {SLOT_AFTER.get(c) for c in param_ctors[(name, prev.name)]} == {ev.name}
+                    else:
+                        ok = prev is not None and SLOT_AFTER.get(prev.name) == ev.name and id(prev.node) not in passed
                     rec.inst(R, "%s:%s<-prev" % (name, ev.name), ok=ok, loc=L(file, ev.line))
                     if not ok:
                         rec.finding(R, "F2.s/%s/orphan-%s" % (name, ev.name), "%s emits %s that does not follow a cache-using instruction" % (name, ev.name), loc=L(file, ev.line), fn=name)
@@ -417,6 +469,14 @@ def run_handlers(rec, S, F):
             fn = F.fn(path)
             if fn is not None:
                 bodies_ = [fn] + list(F.closures_of(fn))
+                # private helpers of the fiber that pop_frame delegates to (two levels)
+                for _lvl in range(2):
+                    for b_ in list(bodies_):
+                        for _, t_ in b_.calls():
+                            c_ = F.fn(t_["f"])
+                            if c_ is not None and c_.path.startswith("laythe_vm::fiber::Fiber::") and c_ not in bodies_:
+                                bodies_.append(c_)
+                                bodies_.extend(F.closures_of(c_))
                 pops_ = any(lastseg(t_["f"]) in ("pop_exception_handler", "truncate", "retain", "pop") and (lastseg(t_["f"]) != "pop" or "exception_handlers" in str(sem.desc_operand(b_, t_["args"][0]) if t_["args"] else "")) for b_ in bodies_ for _, t_ in b_.calls())
                 depth_ = any(lastseg(t_["f"]) == "call_frame_depth" for b_ in bodies_ for _, t_ in b_.calls())
                 if pops_ and depth_:
